@@ -976,4 +976,54 @@ theorem filterMap_mproc (outc : String × Int → Nat) (mid : List (String × In
       simp [List.filter_cons, h]
 
 
+
+/-! ## setters: the generated `objdict` tables are the expected ones -/
+
+theorem setterLists_eq (L : Lists) (w : Which) (v : ObjList) : setterLists L w v = L.set w v := by
+  cases w <;> rfl
+
+theorem setterAssign_eq (L : Lists) (w : Which) (v : ObjList) : setterAssign L w v = L.set w v := by
+  cases w <;> rfl
+
+theorem step_setList (T : Tables) (st : ExpState) (w : Which) (v : ObjList) :
+    step T st (.setList w v) =
+      match validateSchedules T (st.lists.set w v) st.schedules with
+      | .error e => .error e
+      | .ok () => .ok { st with lists := st.lists.set w v } := by
+  simp only [step, setterLists_eq, setterAssign_eq]
+  cases validateSchedules T (st.lists.set w v) st.schedules <;> rfl
+
+/-! ## look-ups of accepted schedules -/
+
+
+theorem inRange_get (L : Lists) (p : String × Int) (h : InRange L p) :
+    ∃ l, L.get? p.1 = some l ∧ 0 ≤ p.2 ∧ p.2 < (l.length : Int) := by
+  obtain ⟨_, l, hl, h0, h1⟩ := (pairOk_iff_inRange L p).2 h
+  exact ⟨l, hl, h0, h1⟩
+
+theorem pyIndex_inRange {α : Type} (l : List α) (i : Int) (h0 : 0 ≤ i) (h1 : i < (l.length : Int)) :
+    ∃ o, pyIndex l i = some o ∧ l[i.toNat]? = some o := by
+  have hlt : i.toNat < l.length := by omega
+  exact ⟨l[i.toNat], by simp [pyIndex, h0, hlt], by simp [hlt]⟩
+
+/-- look-ups of in-range items never raise: they deliver all objects or stop at the first `None` placeholder -/
+theorem lookupTargets_total (L : Lists) (ps : List (String × Int)) (pos : Nat) (h : ∀ p ∈ ps, InRange L p) :
+    (∃ ts, lookupTargets L (ps.map fun p => Item.mk p.1 p.2) pos = .ok ts ∧ ts.length = ps.length) ∨
+    (∃ k, lookupTargets L (ps.map fun p => Item.mk p.1 p.2) pos = .error (.isNone k) ∧ pos ≤ k ∧ k < pos + ps.length) := by
+  induction ps generalizing pos with
+  | nil => exact Or.inl ⟨[], rfl, rfl⟩
+  | cons p t ih =>
+    obtain ⟨l, hl, h0, h1⟩ := inRange_get L p (h p (by simp))
+    obtain ⟨o, ho, _⟩ := pyIndex_inRange l p.2 h0 h1
+    simp only [List.map_cons, Item.mk, lookupTargets, hl, ho]
+    cases o with
+    | none => exact Or.inr ⟨pos, rfl, by omega, by simp⟩
+    | some m =>
+      have ih' := ih (pos + 1) (fun q hq => h q (by simp [hq]))
+      simp only [Item.mk] at ih'
+      rcases ih' with ⟨ts, h1, h2⟩ | ⟨k, h1, h2, h3⟩
+      · exact Or.inl ⟨qtOf p.1 m :: ts, by simp only [h1], by simp [h2]⟩
+      · exact Or.inr ⟨k, by simp only [h1], by omega, by simp only [List.length_cons]; omega⟩
+
+
 end QM.C20
